@@ -45,6 +45,23 @@ func runC01(outer *testing.T) func(t rapid.TB, h pktsim.History, rec *vx.Case) {
 					}
 				}
 			}
+			if op.K == "checktx" && st.Check != nil && st.Pkt != nil {
+				rec.Class("checktx")
+				if d := sim.Diff(st.Before, st.After); len(d) > 0 {
+					vx.Violatef(t, rec, id, "checktx-changes-state", "step %d: CheckTx of a receive changed committed state %v", i, d)
+				}
+				if len(recvd[pktsim.DstKey(w, st.Pkt)]) > 0 {
+					dupRecv++
+					rec.Class("checktx-redundant")
+					// an all-redundant relay tx must be refused by the mempool check and must not reach the application
+					if st.Check.Code == 0 {
+						vx.Violatef(t, rec, id, "checktx-accepts-redundant", "step %d: CheckTx accepted a tx that only re-relays already received %s", i, st.Pkt)
+					}
+					if len(w.Log) != st.LogStart {
+						vx.Violatef(t, rec, id, "checktx-dup-reaches-app", "step %d: CheckTx of re-relay of %s reached the application", i, st.Pkt)
+					}
+				}
+			}
 			// invariant after every step: at most one committed receive transaction per key
 			for k, steps := range pktsim.CommittedSteps(w, "recv") {
 				if len(steps) > 1 {
@@ -64,7 +81,7 @@ func TestC01(t *testing.T) {
 		Rule:      "histories of send/recv/ack/timeout/replay/update/block/time ops over 2 chains with v1-unordered, v1-ordered, v2 and v2-alias links; non-trivial = at least one re-relay of an already received packet and packets on >=2 link kinds; distinct by full history",
 		MinNTFrac: 0.25,
 		Gen: func(t *rapid.T) pktsim.History {
-			return pktsim.GenLifecycle(t, 28, []string{"send", "send", "recv", "recv", "recv", "recv", "replay", "replay", "ack", "timeout", "update", "block", "time"}, []string{"ok", "ok", "err", "async"})
+			return pktsim.GenLifecycle(t, 28, []string{"send", "send", "recv", "recv", "recv", "recv", "replay", "replay", "checktx", "ack", "timeout", "update", "block", "time"}, []string{"ok", "ok", "err", "async"})
 		},
 		Run: runC01(t),
 	})
